@@ -33,9 +33,8 @@ Example declarative_middle_nonvacuous :
 Proof. split; vm_compute; reflexivity. Qed.
 
 Example inline_nonvacuous :
-  g_inline_ok (declarative pheno_prog) = true /\ inlined (declarative pheno_prog) = [sS1] /\
-  g_dv_not_alias [sY] (declarative pheno_prog) = true /\
-  length (inline (declarative pheno_prog)) = 5%nat.
+  g_inline_ok [sY] (declarative pheno_prog) = true /\ inlined [sY] (declarative pheno_prog) = [sS1] /\
+  length (inline [sY] (declarative pheno_prog)) = 5%nat.
 Proof. repeat split; vm_compute; reflexivity. Qed.
 
 Example rename_nonvacuous :
@@ -52,10 +51,10 @@ Definition ex_prog2 : list stm :=
   pheno_prog ++ [SAssign sC (Add (Sym sY) (Sym sETA2))].
 
 Example cleanup_nonvacuous :
-  g_cleanup ex_fixed ex_dists ex_prog2 = true /\
+  g_cleanup [sY] ex_fixed ex_dists ex_prog2 = true /\
   zero_map ex_fixed ex_dists = [(sOM2, Num 0); (sETA2, Num 0)] /\
-  hd (SOde [] []) (cleanup_stmts ex_fixed ex_dists ex_prog2) = SAssign sT2 (Num 2) /\
-  last (cleanup_stmts ex_fixed ex_dists ex_prog2) (SOde [] []) = SAssign sC (Add (Sym sY) (Num 0)).
+  hd (SOde [] []) (cleanup_stmts [sY] ex_fixed ex_dists ex_prog2) = SAssign sT2 (Num 2) /\
+  last (cleanup_stmts [sY] ex_fixed ex_dists ex_prog2) (SOde [] []) = SAssign sC (Add (Sym sY) (Num 0)).
 Proof. repeat split; vm_compute; reflexivity. Qed.
 
 Example consts_nonvacuous :
